@@ -236,7 +236,7 @@ def worker(inst):
     use_logsumexp_spec()
     tier = os.environ.get("VERIF_TIER", "quick")
     out = decide("%s|%s/%s|%s" % (inst[2], inst[1]["sum_op"], inst[1]["prod_op"], _show(inst[1])), build_obligation(inst),
-                 timeout_ms=6000 if tier == "quick" else 60000, twin=True)
+                 timeout_ms=6000 if tier == "quick" else 20000, twin=True)
     out["prog"] = out["label"]
     return out
 
